@@ -161,6 +161,7 @@ mod proofs {
 
   #[kani::proof]
   #[kani::unwind(6)]
+  #[kani::stub(regex::Regex::new, crate::stub_regex_new)]
   fn c11_transform_source_total() {
     let mut len = 0;
     while len <= 3 {
